@@ -830,11 +830,56 @@ def rule_regexfresh(ctx):
     return res.finish(1)
 
 
+def rule_caporder(ctx):
+    """`under a feature cap: the most frequent of them` - of the n-grams the settings *admit*.  The cap (`take(max_features)`)
+    therefore cuts a sequence that was already filtered by stop words and the document-frequency window.  A `filter` applied
+    to what `take` left is a filter after the cut: rejected entries have used up places of the cap, and fewer than
+    max_features admitted entries survive although more exist."""
+    res = RuleResult("R-C17-caporder", "in the vocabulary filter no admission test (`filter` / `filter_map` / `retain`) is applied after the feature cap (`take` / `truncate`)")
+    F = ctx.facts()
+    fns = find(F, "filter_vocabulary")
+    n = 0
+    for fn in fns:
+        c = fn["crate"]
+        key = fn_key(fn)
+        caps = 0
+        bad = None
+        for y in walk(fn["body"]):
+            if y.get("k") != "MethodCall" or y["name"] not in ("filter", "filter_map", "retain", "skip_while", "take_while"):
+                continue
+            cur = peel_refs(y["recv"])
+            hops = 0
+            while isinstance(cur, dict) and hops < 30:
+                hops += 1
+                if cur.get("k") == "MethodCall":
+                    if cur["name"] in ("take", "truncate"):
+                        bad = (y, cur)
+                    cur = peel_refs(cur["recv"])
+                elif cur.get("k") == "Call" and cur.get("args"):
+                    cur = peel_refs(cur["args"][0])
+                else:
+                    break
+        for y in walk(fn["body"]):
+            if y.get("k") == "MethodCall" and y["name"] in ("take", "truncate"):
+                caps += 1
+        n += 1
+        res.instance("%s : %d caps" % (key, caps))
+        if caps == 0:
+            res.undecided("%s : cap" % key, "no `take` / `truncate` in the vocabulary filter (fail closed)", fn_loc(fn))
+        elif bad is None:
+            res.ok()
+        else:
+            res.violate("%s : admission-after-cap" % key, "`%s(..)` is applied to what `%s(..)` left: entries that the stop words or the document-frequency window reject take up places of the feature cap, and admitted entries beyond it are lost" % (bad[0]["name"], bad[1]["name"]), fn_loc(fn, bad[0].get("ln")))
+    if n < 1:
+        res.missing_anchor("filter_vocabulary")
+    return res.finish(1)
+
+
 def rules(tier):
-    from . import carry, c04, iteroverride
+    from . import carry, c04, iteroverride, layout
     from . import intnarrow
     return [intnarrow.make_rule("R-C17-narrow", lambda f: f["d"]["krate"] == CRATE and any(x in fn_file(f) for x in ("countgrams", "tf_idf", "helpers")), "the vectorisers of linfa-preprocessing"),
-            rule_lookupall, iteroverride.make_rule("R-C17-iter", {CRATE}, 1, "linfa-preprocessing (the n-gram walk)"), rule_regexfresh, rule_views, rule_ngrams, rule_pipeline, rule_docfreq, rule_window, rule_reindex, rule_lookup, rule_row, rule_tfidf,
+            rule_lookupall, rule_caporder, layout.make_rule("R-C17-memorder", "raw memory-order buffers of the document arrays are consumed in order only behind an is_standard_layout() test (row d of the count matrix is document d)", lambda f: f["d"]["krate"] == CRATE and any(x in fn_file(f) for x in ("countgrams", "tf_idf", "helpers")), "the vectorisers of linfa-preprocessing"), iteroverride.make_rule("R-C17-iter", {CRATE}, 1, "linfa-preprocessing (the n-gram walk)"), rule_regexfresh, rule_views, rule_ngrams, rule_pipeline, rule_docfreq, rule_window, rule_reindex, rule_lookup, rule_row, rule_tfidf,
             carry.make_clone_rule("R-C17-clone", {CRATE}, 8), carry.make_setter_rule("R-C17-override", {CRATE}, 4),
             c04.make_carry_rule("R-C17-carry", {"CountVectorizerParams"}, 4), c04.make_setter_value_rule("R-C17-setter", {"CountVectorizerParams", "TfIdfVectorizer"}, 6),
             carry.make_accessor_rule("R-C17-accessor", {"linfa_preprocessing"}, 6), carry.make_ctor_rule("R-C17-ctor", {"linfa_preprocessing"}, 2)]
